@@ -16,7 +16,7 @@ SUB = {'s': {'x': {'_default': 0, '_emit': True},
              'm': {'_default': 4, '_divider': 'split', '_emit': True}}}
 
 KINDS = ['add', 'delete', 'generate', 'divide', 'divide_copy', 'move_out',
-         'move_in']
+         'move_in', 'generate_same']
 
 
 def is_live(obj):
@@ -228,9 +228,11 @@ def make_ops(ctx, kinds, ts_g, d, flavor, fresh_values=None):
                 CTX['issued'].append(('delete', l1[0]))
                 CTX['has_proc'].discard(l1[0])
                 return {'loc1': {'_delete': [l1[0]]}}
-            if label == 'generate':
+            if label in ('generate', 'generate_same'):
                 a = agent(ts_g, d, flavor)
                 key = 'g%d' % fid[0]
+                if label == 'generate_same' and 'a1' not in l1:
+                    key = 'a1'       # the path of a compartment deleted before
                 CTX['issued'].append(('generate', key, a))
                 CTX['has_proc'].add(key)
                 return {'loc1': {'_generate': [dict(
